@@ -344,7 +344,11 @@ def oracle(case, res):
 def gen_cases(rng, n, sizes=(0, 0, 1, 1, 1, 2), **opts):
     cases = []
     for _ in range(n):
-        x, d = xmldocs.gen_document(rng, rng.choice(sizes), **opts)
+        # the root namespace is the 1.4.1 URI, the 1.5 URI or some other one: what the file says does not depend on it
+        r = rng.random()
+        ns = xmldocs.NS_141 if r < 0.55 else (xmldocs.NS_15 if r < 0.8 else
+                                              rng.choice(['urn:x-verif:c05:%d', 'http://example.org/schemas/COLLADA/%d', 'a%d']) % rng.randint(0, 999))
+        x, d = xmldocs.gen_document(rng, rng.choice(sizes), ns=ns, **opts)
         cases.append({'xml': x.decode('utf-8'), 'desc': d})
     return cases
 
@@ -455,6 +459,10 @@ def feature_counts(cases):
                 walk(n)
                 if any(r in ids[k + 1:] for r in expect.inst_refs(n)):
                     inc('scene node instantiating a later top-level node')
+        if d.get('ns') != xmldocs.NS_141:
+            inc('root namespace other than the 1.4.1 URI')
+        if d.get('root_version') != '1.4.1':
+            inc('root version attribute absent or unusual')
         if d.get('repair_paths'):
             inc('effect whose <texture> names an image directly (loader repair path)')
         for k in d.get('split_libraries', []):
